@@ -136,6 +136,13 @@ inductive DeErr where
   | badDelimiterHeader
   deriving DecidableEq, Repr
 
+instance {ε α : Type} [DecidableEq ε] [DecidableEq α] : DecidableEq (Except ε α)
+  | .ok a, .ok b => if h : a = b then isTrue (by rw [h]) else isFalse (by intro e; cases e; exact h rfl)
+  | .error a, .error b =>
+    if h : a = b then isTrue (by rw [h]) else isFalse (by intro e; cases e; exact h rfl)
+  | .ok _, .error _ => isFalse (by intro e; cases e)
+  | .error _, .ok _ => isFalse (by intro e; cases e)
+
 /-! ## Bits and bytes -/
 
 /-- The `n` low bits of `x`, least significant first. -/
@@ -361,15 +368,12 @@ def hasTy : Ty → Val → Bool
   | .float _ _, .float x => decide (x < 2 ^ 64)
   | .bool, .bool _ => true
   | .void _, .void => true
-  | .arr t n, .arr vs => vs.length == n && hasTyAll t vs
-  | .varr t _, .arr vs => hasTyAll t vs
+  | .arr t n, .arr vs => vs.length == n && vs.all (hasTy t)
+  | .varr t _, .arr vs => vs.all (hasTy t)
   | .struct fs, .struct vs => hasTyFields fs vs
   | .union fs, .union k v => hasTyNth fs k v
   | .delim _ inner, v => hasTy inner v
   | _, _ => false
-def hasTyAll : Ty → List Val → Bool
-  | _, [] => true
-  | t, v :: vs => hasTy t v && hasTyAll t vs
 def hasTyFields : List Ty → List Val → Bool
   | [], [] => true
   | f :: fs, v :: vs => hasTy f v && hasTyFields fs vs
@@ -387,15 +391,12 @@ def castAdjust : Ty → Val → Val
   | .uint n m, .int i => .int (castU n m i)
   | .sint n m, .int i => .int (signExtend n (castS n m i))
   | .float n m, .float x => .float (widen n (narrow n m x))
-  | .arr t _, .arr vs => .arr (adjAll t vs)
-  | .varr t _, .arr vs => .arr (adjAll t vs)
+  | .arr t _, .arr vs => .arr (vs.map (castAdjust t))
+  | .varr t _, .arr vs => .arr (vs.map (castAdjust t))
   | .struct fs, .struct vs => .struct (adjFields fs vs)
   | .union fs, .union k v => .union k (adjNth fs k v)
   | .delim _ inner, v => castAdjust inner v
   | _, v => v
-def adjAll : Ty → List Val → List Val
-  | _, [] => []
-  | t, v :: vs => castAdjust t v :: adjAll t vs
 def adjFields : List Ty → List Val → List Val
   | f :: fs, v :: vs => castAdjust f v :: adjFields fs vs
   | _, vs => vs
@@ -407,6 +408,18 @@ end
 
 /-! ## Serialization -/
 
+/-- Array elements one after the other with the element serializer `f` (elements of alignment 8 have
+lengths that are multiples of 8, so no padding is needed in between). -/
+def serAllWith (f : Val → Except SerErr (List Bool)) : List Val → Except SerErr (List Bool)
+  | [] => .ok []
+  | v :: vs =>
+    match f v with
+    | .error e => .error e
+    | .ok a =>
+      match serAllWith f vs with
+      | .error e => .error e
+      | .ok b => .ok (a ++ b)
+
 mutual
 /-- Serialized representation of `v : t` in nested position. -/
 def serBits : Ty → Val → Except SerErr (List Bool)
@@ -415,10 +428,10 @@ def serBits : Ty → Val → Except SerErr (List Bool)
   | .float n m, .float x => .ok (natToBits n (narrow n m x))
   | .bool, .bool b => .ok [b]
   | .void n, .void => .ok (zeros n)
-  | .arr t n, .arr vs => if vs.length = n then serAll t vs else .error .illTyped
+  | .arr t n, .arr vs => if vs.length = n then serAllWith (serBits t) vs else .error .illTyped
   | .varr t cap, .arr vs =>
     if vs.length > cap then .error .badArrayLength
-    else (serAll t vs).map (natToBits (prefixBits cap) vs.length ++ ·)
+    else (serAllWith (serBits t) vs).map (natToBits (prefixBits cap) vs.length ++ ·)
   | .struct fs, .struct vs =>
     (serFields fs vs 0).map fun bs => bs ++ zeros (padLen 8 bs.length)
   | .union fs, .union k v =>
@@ -429,16 +442,6 @@ def serBits : Ty → Val → Except SerErr (List Bool)
   | .delim _ inner, v =>
     (serBits inner v).map fun bs => natToBits headerBits (bs.length / 8) ++ bs
   | _, _ => .error .illTyped
-/-- Array elements one after the other (elements of alignment 8 have lengths that are multiples of 8). -/
-def serAll : Ty → List Val → Except SerErr (List Bool)
-  | _, [] => .ok []
-  | t, v :: vs =>
-    match serBits t v with
-    | .error e => .error e
-    | .ok a =>
-      match serAll t vs with
-      | .error e => .error e
-      | .ok b => .ok (a ++ b)
 /-- Fields of a structure starting at offset `off` of the structure: zero padding up to the field's
 alignment, then the field. -/
 def serFields : List Ty → List Val → Nat → Except SerErr (List Bool)
@@ -471,6 +474,17 @@ def serBuf (t : Ty) (v : Val) (cap : Nat) : Except SerErr (List Nat) :=
 
 /-! ## Deserialization -/
 
+/-- `k` consecutive elements with the element decoder `f`. -/
+def deAllWith (f : List Bool → Except DeErr (Val × Nat)) : Nat → List Bool → Except DeErr (List Val × Nat)
+  | 0, _ => .ok ([], 0)
+  | k + 1, bs =>
+    match f bs with
+    | .error e => .error e
+    | .ok (v, n) =>
+      match deAllWith f k (bs.drop n) with
+      | .error e => .error e
+      | .ok (vs, m) => .ok (v :: vs, n + m)
+
 mutual
 /-- Decode an object of type `t` at the head of `bs` (nested position).  Result: the value and the
 number of bits the object occupies (the *virtual* offset: it may exceed `bs.length`, the missing bits
@@ -482,7 +496,7 @@ def deBits : Ty → List Bool → Except DeErr (Val × Nat)
   | .bool, bs => .ok (.bool (readNat 1 bs == 1), 1)
   | .void n, _ => .ok (.void, n)
   | .arr t n, bs =>
-    match deAll t n bs with
+    match deAllWith (deBits t) n bs with
     | .error e => .error e
     | .ok (vs, used) => .ok (.arr vs, used)
   | .varr t cap, bs =>
@@ -490,7 +504,7 @@ def deBits : Ty → List Bool → Except DeErr (Val × Nat)
     let k := readNat p bs
     if k > cap then .error .badArrayLength
     else
-      match deAll t k (bs.drop p) with
+      match deAllWith (deBits t) k (bs.drop p) with
       | .error e => .error e
       | .ok (vs, used) => .ok (.arr vs, p + used)
   | .struct fs, bs =>
@@ -515,16 +529,6 @@ def deBits : Ty → List Bool → Except DeErr (Val × Nat)
       match deBits inner (rest.take (8 * h)) with
       | .error e => .error e
       | .ok (v, _) => .ok (v, headerBits + 8 * h)
-/-- `k` consecutive elements. -/
-def deAll : Ty → Nat → List Bool → Except DeErr (List Val × Nat)
-  | _, 0, _ => .ok ([], 0)
-  | t, k + 1, bs =>
-    match deBits t bs with
-    | .error e => .error e
-    | .ok (v, n) =>
-      match deAll t k (bs.drop n) with
-      | .error e => .error e
-      | .ok (vs, m) => .ok (v :: vs, n + m)
 /-- Fields of a structure whose bits are `bs`, continuing at offset `off`; returns the end offset. -/
 def deFields : List Ty → List Bool → Nat → Except DeErr (List Val × Nat)
   | [], _, off => .ok ([], off)
